@@ -321,3 +321,356 @@ Theorem raise_coerce_agree cells ov :
 Proof.
   unfold aggregates_coerce. rewrite map_map. cbn [coerce_cell]. rewrite map_id. reflexivity.
 Qed.
+
+(* ================================================================================================
+   WHOLE-TABLE MODEL: control-level structure
+   ================================================================================================ *)
+Lemma agg_ext_nil g s : agg_ext g s [] = NaN.
+Proof. destruct g, s; reflexivity. Qed.
+
+Lemma c_diff_is_diff_with cells sub : c_agg AggMax true (c_abs (c_sub cells sub)) = diff_with cells sub.
+Proof. unfold c_agg, agg_ext, c_abs, c_sub, diff_with, abs_diffs. rewrite map_map. reflexivity. Qed.
+
+Lemma c_ratio_is_ratio_with fold cells ov :
+  c_agg AggMin true (c_map fold (c_div cells ov)) = ratio_to_overall_with fold cells ov.
+Proof. unfold c_agg, agg_ext, c_map, c_div, ratio_to_overall_with. rewrite map_map. reflexivity. Qed.
+
+Section KeyedProofs.
+Context {K : Type} (keqb : K -> K -> bool).
+Hypothesis keqb_spec : forall a b, keqb a b = true <-> a = b.
+
+Lemma keqb_refl k : keqb k k = true.
+Proof. apply keqb_spec. reflexivity. Qed.
+
+Lemma keqb_false a b : keqb a b = false <-> a <> b.
+Proof.
+  split.
+  - intros H E. apply keqb_spec in E. congruence.
+  - intro H. destruct (keqb a b) eqn:E; [|reflexivity]. apply keqb_spec in E. contradiction.
+Qed.
+
+Lemma klookup_tabulate (F : K -> ext) ks k :
+  In k ks -> klookup keqb k (map (fun k' => (k', F k')) ks) = F k.
+Proof.
+  induction ks as [|a ks IH]; intro H; [contradiction|]. cbn [map klookup fst snd].
+  destruct (keqb k a) eqn:E.
+  - apply keqb_spec in E. subst a. reflexivity.
+  - destruct H as [->|H]; [rewrite keqb_refl in E; discriminate | apply IH; exact H].
+Qed.
+
+Lemma kkeys_in k l : In k (kkeys keqb l) <-> In k l.
+Proof.
+  induction l as [|a l IH]; cbn [kkeys]; [tauto|]. split.
+  - intros [->|H]; [left; reflexivity|]. apply filter_In in H. right. apply IH. tauto.
+  - intros [->|H]; [left; reflexivity|]. destruct (keqb k a) eqn:E.
+    + apply keqb_spec in E. left. congruence.
+    + right. apply filter_In. split; [apply IH; exact H | rewrite E; reflexivity].
+Qed.
+
+Lemma kcells_app {A} k (r1 r2 : list (K * A)) : kcells keqb k (r1 ++ r2) = kcells keqb k r1 ++ kcells keqb k r2.
+Proof. unfold kcells. rewrite filter_app, map_app. reflexivity. Qed.
+
+(* a map that keeps the key and rewrites the cell from the key and the cell commutes with kcells *)
+Lemma kcells_map_cell {A B} (f : K -> A -> B) k (rows : list (K * A)) :
+  kcells keqb k (map (fun r => (fst r, f (fst r) (snd r))) rows) = map (f k) (kcells keqb k rows).
+Proof.
+  unfold kcells. induction rows as [|r rows IH]; [reflexivity|]. cbn [map filter fst snd].
+  destruct (keqb (fst r) k) eqn:E; cbn [map snd]; [|exact IH].
+  apply keqb_spec in E. rewrite E, IH. reflexivity.
+Qed.
+
+Lemma fst_map_cell {A B} (f : K -> A -> B) (rows : list (K * A)) :
+  map fst (map (fun r => (fst r, f (fst r) (snd r))) rows) = map fst rows.
+Proof. rewrite map_map. apply map_ext. reflexivity. Qed.
+
+Lemma kcells_t_num k rows : kcells keqb k (t_num rows) = c_num (kcells keqb k rows).
+Proof. exact (kcells_map_cell (fun _ => num_of) k rows). Qed.
+Lemma kcells_t_filter f k rows : kcells keqb k (t_filter f rows) = c_filter f (kcells keqb k rows).
+Proof. exact (kcells_map_cell (fun _ => f) k rows). Qed.
+Lemma kcells_t_map f k rows : kcells keqb k (t_map f rows) = c_map f (kcells keqb k rows).
+Proof. exact (kcells_map_cell (fun _ => f) k rows). Qed.
+Lemma kcells_t_abs k rows : kcells keqb k (t_abs rows) = c_abs (kcells keqb k rows).
+Proof. exact (kcells_map_cell (fun _ => ext_abs) k rows). Qed.
+(* the subtrahend / denominator a row meets is the one of ITS OWN control key *)
+Lemma kcells_t_sub k rows sub :
+  kcells keqb k (t_sub keqb rows sub) = c_sub (kcells keqb k rows) (klookup keqb k sub).
+Proof. exact (kcells_map_cell (fun k' v => ext_sub v (klookup keqb k' sub)) k rows). Qed.
+Lemma kcells_t_div k rows den :
+  kcells keqb k (t_div keqb rows den) = c_div (kcells keqb k rows) (klookup keqb k den).
+Proof. exact (kcells_map_cell (fun k' v => ext_div v (klookup keqb k' den)) k rows). Qed.
+
+Lemma fst_t_num (rows : list (K * pycell)) : map fst (t_num rows) = map fst rows.
+Proof. exact (fst_map_cell (fun _ => num_of) rows). Qed.
+Lemma fst_t_filter f (rows : list (K * pycell)) : map fst (t_filter f rows) = map fst rows.
+Proof. exact (fst_map_cell (fun _ => f) rows). Qed.
+Lemma fst_t_map f (rows : list (K * ext)) : map fst (t_map f rows) = map fst rows.
+Proof. exact (fst_map_cell (fun _ => f) rows). Qed.
+Lemma fst_t_abs (rows : list (K * ext)) : map fst (t_abs rows) = map fst rows.
+Proof. exact (fst_map_cell (fun _ => ext_abs) rows). Qed.
+Lemma fst_t_sub rows sub : map fst (t_sub keqb rows sub) = map fst rows.
+Proof. exact (fst_map_cell (fun k' v => ext_sub v (klookup keqb k' sub)) rows). Qed.
+Lemma fst_t_div rows den : map fst (t_div keqb rows den) = map fst rows.
+Proof. exact (fst_map_cell (fun k' v => ext_div v (klookup keqb k' den)) rows). Qed.
+
+Lemma klookup_t_agg g s rows k :
+  In k (map fst rows) -> klookup keqb k (t_agg keqb g s rows) = agg_ext g s (kcells keqb k rows).
+Proof.
+  intro H. unfold t_agg.
+  apply (klookup_tabulate (fun k' => agg_ext g s (kcells keqb k' rows))). apply kkeys_in. exact H.
+Qed.
+
+(* ---------- per control key: every whole-table aggregate, read at key k, is the no-control aggregate
+   of the rows of key k and of the overall value AT KEY k ---------- *)
+Lemma group_cf_at g e by_group k : In k (map fst by_group) ->
+  klookup keqb k (mf_group_cf keqb g e by_group) = mf_group_nocf g e (kcells keqb k by_group).
+Proof.
+  intro H. destruct e; unfold mf_group_cf, mf_group_nocf, c_agg.
+  - rewrite klookup_t_agg by (rewrite fst_t_num; exact H). rewrite kcells_t_num. reflexivity.
+  - rewrite klookup_t_agg by (rewrite fst_t_num, fst_t_filter; exact H).
+    rewrite kcells_t_num, kcells_t_filter. reflexivity.
+Qed.
+
+Lemma difference_cf_at m e by_group overall k : In k (map fst by_group) ->
+  klookup keqb k (mf_difference_cf keqb m e by_group overall)
+  = mf_difference_nocf m e (kcells keqb k by_group) (klookup keqb k overall).
+Proof.
+  intro H.
+  assert (G : forall sub,
+    klookup keqb k (t_agg keqb AggMax true (t_abs (t_sub keqb (t_num (t_filter coerce_py by_group)) sub)))
+    = c_agg AggMax true (c_abs (c_sub (c_num (c_filter coerce_py (kcells keqb k by_group))) (klookup keqb k sub)))).
+  { intro sub. rewrite klookup_t_agg by (rewrite fst_t_abs, fst_t_sub, fst_t_num, fst_t_filter; exact H).
+    rewrite kcells_t_abs, kcells_t_sub, kcells_t_num, kcells_t_filter. reflexivity. }
+  destruct m, e; unfold mf_difference_cf, mf_difference_nocf; rewrite G;
+    try rewrite (group_cf_at AggMin _ by_group k H); reflexivity.
+Qed.
+
+Lemma klookup_t_div_tabulate (F : K -> ext) ks den k : In k ks ->
+  klookup keqb k (t_div keqb (map (fun k' => (k', F k')) ks) den) = ext_div (F k) (klookup keqb k den).
+Proof.
+  intro H. unfold t_div. rewrite map_map. cbn [fst snd].
+  apply (klookup_tabulate (fun k' => ext_div (F k') (klookup keqb k' den))). exact H.
+Qed.
+
+Lemma ratio_cf_at fold m e by_group overall k : In k (map fst by_group) ->
+  klookup keqb k (mf_ratio_cf keqb fold m e by_group overall)
+  = mf_ratio_nocf fold m e (kcells keqb k by_group) (klookup keqb k overall).
+Proof.
+  intro H.
+  assert (B : forall e', klookup keqb k (t_div keqb (mf_group_cf keqb AggMin e' by_group)
+                                               (mf_group_cf keqb AggMax e' by_group))
+                         = ext_div (mf_group_nocf AggMin e' (kcells keqb k by_group))
+                                   (mf_group_nocf AggMax e' (kcells keqb k by_group))).
+  { intro e'. rewrite <- (group_cf_at AggMin e' by_group k H), <- (group_cf_at AggMax e' by_group k H).
+    destruct e'; unfold mf_group_cf at 1, t_agg at 1.
+    - rewrite (klookup_t_div_tabulate (fun k' => agg_ext AggMin true (kcells keqb k' (t_num by_group)))).
+      + rewrite <- (klookup_t_agg AggMin true (t_num by_group) k) by (rewrite fst_t_num; exact H). reflexivity.
+      + apply kkeys_in. rewrite fst_t_num. exact H.
+    - rewrite (klookup_t_div_tabulate
+                 (fun k' => agg_ext AggMin true (kcells keqb k' (t_num (t_filter coerce_py by_group))))).
+      + rewrite <- (klookup_t_agg AggMin true (t_num (t_filter coerce_py by_group)) k)
+          by (rewrite fst_t_num, fst_t_filter; exact H). reflexivity.
+      + apply kkeys_in. rewrite fst_t_num, fst_t_filter. exact H. }
+  assert (O : klookup keqb k (t_agg keqb AggMin true (t_map fold (t_div keqb (t_num by_group) overall)))
+              = c_agg AggMin true (c_map fold (c_div (c_num (kcells keqb k by_group)) (klookup keqb k overall)))).
+  { rewrite klookup_t_agg by (rewrite fst_t_map, fst_t_div, fst_t_num; exact H).
+    rewrite kcells_t_map, kcells_t_div, kcells_t_num. reflexivity. }
+  destruct m, e; unfold mf_ratio_cf, mf_ratio_nocf; first [apply B | apply O].
+Qed.
+
+(* whole table, rows in ANY order: one record per control key, each the no-control record of that key *)
+Theorem mf_table_keyed fold e by_group overall :
+  mf_table_cf keqb fold e by_group overall
+  = map (fun k => (k, mf_record_nocf fold e (kcells keqb k by_group) (klookup keqb k overall)))
+        (kkeys keqb (map fst by_group)).
+Proof.
+  unfold mf_table_cf. apply map_ext_in. intros k Hk. apply (proj1 (kkeys_in k _)) in Hk.
+  unfold mf_record_nocf.
+  rewrite !(group_cf_at _ e by_group k Hk), !(difference_cf_at _ e by_group overall k Hk),
+          !(ratio_cf_at fold _ e by_group overall k Hk). reflexivity.
+Qed.
+
+(* ---------- level-by-level layout ---------- *)
+Lemma filter_all_true {A} (p : A -> bool) l : (forall x, In x l -> p x = true) -> filter p l = l.
+Proof.
+  induction l as [|a l IH]; intro H; [reflexivity|]. cbn [filter].
+  rewrite (H a) by (left; reflexivity). f_equal. apply IH. intros x Hx. apply H. right. exact Hx.
+Qed.
+
+Lemma filter_idem {A} (p : A -> bool) l : filter p (filter p l) = filter p l.
+Proof. apply filter_all_true. intros x Hx. apply filter_In in Hx. tauto. Qed.
+
+Lemma kkeys_const_app {A} k (cells : list A) l : cells <> [] ->
+  kkeys keqb (map (fun _ => k) cells ++ l) = k :: filter (fun k' => negb (keqb k' k)) (kkeys keqb l).
+Proof.
+  induction cells as [|c cs IH]; intro H; [contradiction|]. cbn [map app kkeys].
+  destruct cs as [|c' cs]; [reflexivity|].
+  rewrite IH by discriminate. cbn [filter]. rewrite keqb_refl. cbn [negb]. rewrite filter_idem. reflexivity.
+Qed.
+
+Lemma fst_rows_of lv (levels : list (K * (list pycell * ext))) :
+  map fst (rows_of (lv :: levels)) = map (fun _ => fst lv) (fst (snd lv)) ++ map fst (rows_of levels).
+Proof. unfold rows_of. cbn [flat_map]. rewrite map_app, map_map. reflexivity. Qed.
+
+Lemma kkeys_rows_of (levels : list (K * (list pycell * ext))) :
+  NoDup (map fst levels) -> (forall lv, In lv levels -> fst (snd lv) <> []) ->
+  kkeys keqb (map fst (rows_of levels)) = map fst levels.
+Proof.
+  induction levels as [|lv levels IH]; intros Hnd Hne; [reflexivity|].
+  rewrite fst_rows_of, kkeys_const_app by (apply Hne; left; reflexivity).
+  cbn [map] in *. inversion Hnd as [|? ? Hnotin Hnd']; subst.
+  rewrite IH by (auto; intros; apply Hne; right; assumption).
+  f_equal. apply filter_all_true. intros k' Hk'. apply negb_true_iff. apply keqb_false.
+  intros ->. contradiction.
+Qed.
+
+Lemma kcells_const {A} k k' (cells : list A) :
+  kcells keqb k (map (fun c => (k', c)) cells) = if keqb k' k then cells else [].
+Proof.
+  unfold kcells. induction cells as [|c cs IH]; cbn [map filter fst]; [destruct (keqb k' k); reflexivity|].
+  destruct (keqb k' k) eqn:E; cbn [map snd]; rewrite IH; reflexivity.
+Qed.
+
+Lemma kcells_rows_of (levels : list (K * (list pycell * ext))) lv :
+  NoDup (map fst levels) -> In lv levels -> kcells keqb (fst lv) (rows_of levels) = fst (snd lv).
+Proof.
+  induction levels as [|l0 levels IH]; intros Hnd Hin; [contradiction|].
+  unfold rows_of. cbn [flat_map]. fold (rows_of levels). rewrite kcells_app, kcells_const.
+  cbn [map] in Hnd. inversion Hnd as [|? ? Hnotin Hnd']; subst.
+  destruct Hin as [->|Hin].
+  - rewrite keqb_refl.
+    assert (E : kcells keqb (fst lv) (rows_of levels) = []).
+    { clear IH Hnd Hnd'. induction levels as [|l1 levels IH]; [reflexivity|].
+      unfold rows_of. cbn [flat_map]. fold (rows_of levels). rewrite kcells_app, kcells_const.
+      destruct (keqb (fst l1) (fst lv)) eqn:E.
+      - apply keqb_spec in E. exfalso. apply Hnotin. left. exact E.
+      - apply IH. intro H. apply Hnotin. right. exact H. }
+    rewrite E, app_nil_r. reflexivity.
+  - destruct (keqb (fst l0) (fst lv)) eqn:E.
+    + apply keqb_spec in E. exfalso. apply Hnotin. rewrite E. apply in_map. exact Hin.
+    + cbn [app]. apply IH; assumption.
+Qed.
+
+Lemma klookup_overall_of (levels : list (K * (list pycell * ext))) lv :
+  NoDup (map fst levels) -> In lv levels -> klookup keqb (fst lv) (overall_of levels) = snd (snd lv).
+Proof.
+  induction levels as [|l0 levels IH]; intros Hnd Hin; [contradiction|].
+  cbn [overall_of map klookup fst snd]. cbn [map] in Hnd. inversion Hnd as [|? ? Hnotin Hnd']; subst.
+  destruct Hin as [->|Hin]; [rewrite keqb_refl; reflexivity|].
+  destruct (keqb (fst lv) (fst l0)) eqn:E.
+  - apply keqb_spec in E. exfalso. apply Hnotin. rewrite <- E. apply in_map. exact Hin.
+  - apply IH; assumption.
+Qed.
+
+(* C02_per_control_level: the aggregates of the whole table are, level by level, the NO-CONTROL aggregates
+   of that level's cells and of that level's OWN overall value *)
+Theorem per_control_level fold e (levels : list (K * (list pycell * ext))) :
+  NoDup (map fst levels) -> (forall lv, In lv levels -> fst (snd lv) <> []) ->
+  mf_table_cf keqb fold e (rows_of levels) (overall_of levels)
+  = map (fun lv => (fst lv, mf_record_nocf fold e (fst (snd lv)) (snd (snd lv)))) levels.
+Proof.
+  intros Hnd Hne. rewrite mf_table_keyed, kkeys_rows_of by assumption. rewrite map_map.
+  apply map_ext_in. intros lv Hin.
+  rewrite kcells_rows_of, klookup_overall_of by assumption. reflexivity.
+Qed.
+
+Lemma level_key_in_rows (levels : list (K * (list pycell * ext))) lv :
+  NoDup (map fst levels) -> (forall lv, In lv levels -> fst (snd lv) <> []) -> In lv levels ->
+  In (fst lv) (map fst (rows_of levels)).
+Proof.
+  intros Hnd Hne Hin. apply kkeys_in. rewrite kkeys_rows_of by assumption. apply in_map. exact Hin.
+Qed.
+
+(* the same, aggregate by aggregate (these are the statements props/C02.v makes about the REGENERATED functions) *)
+Theorem group_per_level g e (levels : list (K * (list pycell * ext))) lv :
+  NoDup (map fst levels) -> (forall lv, In lv levels -> fst (snd lv) <> []) -> In lv levels ->
+  klookup keqb (fst lv) (mf_group_cf keqb g e (rows_of levels)) = mf_group_nocf g e (fst (snd lv)).
+Proof.
+  intros Hnd Hne Hin. rewrite group_cf_at by (apply level_key_in_rows; assumption).
+  rewrite kcells_rows_of by assumption. reflexivity.
+Qed.
+
+Theorem difference_per_level m e (levels : list (K * (list pycell * ext))) lv :
+  NoDup (map fst levels) -> (forall lv, In lv levels -> fst (snd lv) <> []) -> In lv levels ->
+  klookup keqb (fst lv) (mf_difference_cf keqb m e (rows_of levels) (overall_of levels))
+  = mf_difference_nocf m e (fst (snd lv)) (snd (snd lv)).
+Proof.
+  intros Hnd Hne Hin. rewrite difference_cf_at by (apply level_key_in_rows; assumption).
+  rewrite kcells_rows_of, klookup_overall_of by assumption. reflexivity.
+Qed.
+
+Theorem ratio_per_level fold m e (levels : list (K * (list pycell * ext))) lv :
+  NoDup (map fst levels) -> (forall lv, In lv levels -> fst (snd lv) <> []) -> In lv levels ->
+  klookup keqb (fst lv) (mf_ratio_cf keqb fold m e (rows_of levels) (overall_of levels))
+  = mf_ratio_nocf fold m e (fst (snd lv)) (snd (snd lv)).
+Proof.
+  intros Hnd Hne Hin. rewrite ratio_cf_at by (apply level_key_in_rows; assumption).
+  rewrite kcells_rows_of, klookup_overall_of by assumption. reflexivity.
+Qed.
+
+(* a per-level theorem lifted to the whole table (rows in any order, any cells, any overall table) *)
+Theorem table_ratio_to_overall_le_one e by_group overall :
+  Forall (fun kr => le_one_or_nan (a_ratio_overall (snd kr)))
+         (mf_table_cf keqb ratio_sub_one e by_group overall).
+Proof.
+  rewrite mf_table_keyed. apply Forall_forall. intros kr H. apply in_map_iff in H.
+  destruct H as [k [<- _]]. cbn [snd mf_record_nocf a_ratio_overall].
+  destruct e; unfold mf_ratio_nocf; rewrite c_ratio_is_ratio_with; apply ratio_to_overall_le_one.
+Qed.
+End KeyedProofs.
+
+(* no control features = ONE level (key tt) *)
+Theorem no_control_is_one_level fold e cells ov : cells <> [] ->
+  mf_table_cf (fun _ _ : unit => true) fold e (rows_of [(tt, (cells, ov))]) (overall_of [(tt, (cells, ov))])
+  = [(tt, mf_record_nocf fold e cells ov)].
+Proof.
+  intro H.
+  apply (per_control_level (fun _ _ : unit => true)).
+  - intros [] []. tauto.
+  - repeat constructor. intros [].
+  - intros lv [<-|[]]. exact H.
+Qed.
+
+(* ---------- the column-level functions are the per-level model above ---------- *)
+Lemma coerce_py_scalar y : py_scalar y -> coerce_py y = y.
+Proof. destruct y; cbn; tauto. Qed.
+
+Lemma coerce_py_is_coerce_cell y : num_of (coerce_py y) = coerce_cell (py_to_acell y) /\ py_scalar (coerce_py y).
+Proof. destruct y; cbn; auto. Qed.
+
+Lemma c_filter_scalar cells : Forall py_scalar cells -> c_filter coerce_py cells = cells.
+Proof.
+  induction 1 as [|y l Hy Hl IH]; [reflexivity|]. cbn [c_filter map].
+  rewrite (coerce_py_scalar y Hy). f_equal. exact IH.
+Qed.
+
+(* scalar cells (python ints, floats, bools), errors = 'raise' or 'coerce' alike *)
+Theorem record_nocf_scalar fold e cells ov : Forall py_scalar cells ->
+  mf_record_nocf fold e cells ov = aggregates_with fold (c_num cells) ov.
+Proof.
+  intro H. unfold mf_record_nocf, aggregates_with, mf_difference_nocf, mf_ratio_nocf, mf_group_nocf.
+  destruct e; rewrite ?(c_filter_scalar cells H), ?c_diff_is_diff_with, ?c_ratio_is_ratio_with; reflexivity.
+Qed.
+
+(* errors = 'coerce', any cells: the five aggregates that pass through the filter see non-scalars as NaN *)
+Lemma c_num_coerce cells : c_num (c_filter coerce_py cells) = map coerce_cell (map py_to_acell cells).
+Proof.
+  unfold c_num, c_filter. rewrite !map_map. apply map_ext. intro y. apply coerce_py_is_coerce_cell.
+Qed.
+
+Theorem record_nocf_coerce fold cells ov :
+  let r := mf_record_nocf fold ErrCoerce cells ov in
+  let a := aggregates_coerce (map py_to_acell cells) (Sc ov) in
+  a_min r = a_min a /\ a_max r = a_max a /\ a_diff_between r = a_diff_between a
+  /\ a_diff_overall r = a_diff_overall a /\ a_ratio_between r = a_ratio_between a.
+Proof.
+  cbv zeta. unfold mf_record_nocf, aggregates_coerce, aggregates, aggregates_with, mf_difference_nocf,
+    mf_ratio_nocf, mf_group_nocf. cbn [a_min a_max a_diff_between a_diff_overall a_ratio_between coerce_cell].
+  rewrite !c_diff_is_diff_with, !c_num_coerce. repeat split; reflexivity.
+Qed.
+
+(* a cell filter that keeps bools, ints and floats (zero included) and turns a non-scalar into NaN IS the
+   model's filter; used for the filters regenerated from the source *)
+Lemma filter_by_cases (f : pycell -> pycell) :
+  (forall b, f (PyBool b) = PyBool b) -> (forall z, f (PyInt z) = PyInt z) ->
+  (forall x, f (PyFloat x) = PyFloat x) -> f PyNonScalar = py_nan -> forall y, f y = coerce_py y.
+Proof. intros Hb Hz Hf Hn [b|z|x|]; cbn; auto. Qed.
